@@ -10,7 +10,7 @@
    of A is rustc's and the allocator's: observed by E3 (addresses of every reference + runtime hooks). *)
 From Coq Require Import List NArith Permutation.
 From Truc.Model Require Import Layout Builder Ir Gen Exec Ops.
-From Truc.Proofs Require Import ExecP Holds Life Chain.
+From Truc.Proofs Require Import ExecP Holds Life Chain ChainU.
 From Truc.Current Require Runtime.
 Import ListNotations.
 
@@ -57,6 +57,20 @@ Proof.
   eauto 6.
 Qed.
 Print Assumptions C07_whole_life_no_fault.
+
+(* ... the same with uninit conversions followed by the writes of the fields left uninitialised (ChainU.v) *)
+Theorem C07_whole_life_uninit_no_fault : forall ds TI rt A cap, rt_ok rt = true ->
+  forall (stages : list ustage) P vals b v,
+  layout_ok ds TI A cap P -> uchain_ok ds TI A cap P stages -> holds ds TI cap A P vals b ->
+  layout_ok ds TI A cap (ulast_data P stages) ->
+  exists bf d r dropped, uchain_run ds TI rt A cap b stages = Ok (bf, d, r) /\
+                         op_drop ds TI rt A cap v (ulast_data P stages) bf = Ok (ONone, dropped).
+Proof.
+  intros ds TI rt A cap RT stages P vals b v LP Hc H LL.
+  destruct (uchain_then_drop ds TI rt A cap RT stages P vals b v LP Hc H LL) as (bf & d & r & dropped & E1 & E2 & _).
+  eauto 6.
+Qed.
+Print Assumptions C07_whole_life_uninit_no_fault.
 
 Theorem C07_current : rt_ok Runtime.exec_rt = true.
 Proof. reflexivity. Qed.
